@@ -225,6 +225,11 @@ impl<T: RealNumber> RandomForestClassifier<T> {
         let classes = y_m.unique();
         let k = classes.len();
         let mut trees: Vec<DecisionTreeClassifier<T>> = Vec::new();
+        #[cfg(smartcore_verif)]
+        {
+            VERIF_FOREST_TRACE.with(|v| v.borrow_mut().clear());
+            crate::tree::decision_tree_classifier::VERIF_TREE_VARS.with(|v| v.borrow_mut().clear());
+        }
 
         let mut maybe_all_samples: Option<Vec<Vec<bool>>> = Option::None;
         if parameters.keep_samples {
@@ -232,7 +237,19 @@ impl<T: RealNumber> RandomForestClassifier<T> {
         }
 
         for _ in 0..parameters.n_trees {
+            #[cfg(smartcore_verif)]
+            VERIF_FOREST_TRACE.with(|v| {
+                let seen = crate::tree::decision_tree_classifier::VERIF_TREE_VARS
+                    .with(|t| t.borrow().len());
+                v.borrow_mut().push((Vec::new(), Vec::new(), seen))
+            });
             let samples = RandomForestClassifier::<T>::sample_with_replacement(&yi, k, &mut rng);
+            #[cfg(smartcore_verif)]
+            VERIF_FOREST_TRACE.with(|v| {
+                if let Some(e) = v.borrow_mut().last_mut() {
+                    e.1 = samples.clone()
+                }
+            });
             if let Some(ref mut all_samples) = maybe_all_samples {
                 all_samples.push(samples.iter().map(|x| *x != 0).collect())
             }
@@ -333,11 +350,25 @@ impl<T: RealNumber> RandomForestClassifier<T> {
             let size = ((n_samples as f64) / *class_weight_l) as usize;
             for _ in 0..size {
                 let xi: usize = rng.gen_range(0..n_samples);
+                #[cfg(smartcore_verif)]
+                VERIF_FOREST_TRACE.with(|v| {
+                    if let Some(e) = v.borrow_mut().last_mut() {
+                        e.0.push(xi)
+                    }
+                });
                 samples[index[xi]] += 1;
             }
         }
         samples
     }
+}
+
+#[cfg(smartcore_verif)]
+thread_local! {
+    /// verification hook: one entry per tree of the most recent `fit` on this thread:
+    /// (bootstrap draws in order, sample counts handed to the tree, number of records in the
+    /// tree module's VERIF_TREE_VARS before the tree was grown)
+    pub static VERIF_FOREST_TRACE: std::cell::RefCell<Vec<(Vec<usize>, Vec<usize>, usize)>> = std::cell::RefCell::new(Vec::new());
 }
 
 #[cfg(test)]
